@@ -12,7 +12,6 @@ def plan(tier, seed):
         ks.append("dragonbox_f32@E=160,free=8,hi=%#x" % (0x7102 + (seed % 7)))
         ks += ["dragonbox_f32@E=%d,shorter" % E for E in range(1, 255)]
         ks += ["dragonbox_f64@E=%d,shorter" % E for E in range(1 + seed % 3, 2047, 3)]
-        ks.append("dragonbox_f64@E=1023,free=6,hi=0")
     else:
         ks += ["rtz_f32", "rtz_f64"]
         for E in range(1, 255, 6):
@@ -25,7 +24,7 @@ def plan(tier, seed):
         for E in range(1, 2047):
             ks.append("dragonbox_f64@E=%d,shorter" % E)
         for E in (1, 500, 1023, 1086, 1500, 2046):
-            ks.append("dragonbox_f64@E=%d,free=8,hi=0" % E)
+            ks.append("dragonbox_f64@E=%d,free=3,hi=0" % E)
     return {
         "kani": [],
         "smt": {"features": (), "kernels": ks, "workers": 8},
@@ -34,7 +33,7 @@ def plan(tier, seed):
         "bounds": ["compute_nearest_normal, per binary exponent (binade): the low `free` mantissa bits symbolic, high bits fixed (cube); compute_nearest_shorter: the single (power of two) input of each binade - all 254 f32 binades and every third f64 binade (seed-rotated) in quick, all 2046 in thorough",
                    "oracle: exact rational interval membership (round trip), no shorter decimal in the interval, no strictly closer neighbour of the same length, no trailing zero",
                    "remove_trailing_zeros contract (m == n*10^s, n%10 != 0) is assumed inside the Dragonbox kernels; it is decided separately for m < 2^24 (thorough tier, rtz_*) and validated on concrete inputs every run"],
-        "outside_claim": ["mantissas outside the cubes (the full 2^23 / 2^52 mantissas of a binade time out)", "remove_trailing_zeros for significands >= 2^24 (full-width queries time out on one path): covered only by concrete validation",
+        "outside_claim": ["f64 compute_nearest_normal beyond 3 free mantissa bits on 6 binades (thorough only; a 6-bit f64 cube needs > 15 min, the 12-bit cube that exposed the threshold defect needed 25 min)", "mantissas outside the cubes (the full 2^23 / 2^52 mantissas of a binade time out)", "remove_trailing_zeros for significands >= 2^24 (full-width queries time out on one path): covered only by concrete validation",
                           "digit emission and formatting (C14)", "compact (Grisu) builds", "the rounding interval follows round-to-nearest-even parsing"],
         "stubs_and_assumes": ["process_trailing_zeros/remove_trailing_zeros replaced by their contract in the dragonbox_* kernels"],
         "assumptions": [],
